@@ -75,12 +75,31 @@ func genC20(seed uint64, idx int, tier string) *Scenario {
 		class = append(class, strings.Join(protos, "+"))
 		sc.Actors = append(sc.Actors, a)
 	}
+	if r.Chance(0.15) {
+		// a flood arrives while the detector is busy delivering another source's report through a
+		// slow channel: more knocks are outstanding than the knock queue holds
+		ipA, ipB := "10.0.8.30", "10.0.9.31"
+		nc.ARPPeers = append(nc.ARPPeers, ipA, ipB)
+		pa, _ := json.Marshal(c20Probe{Proto: "icmp"})
+		fl, _ := json.Marshal(c20Probe{Proto: "tcp", Port: r.Range(2000, 3000), Burst: r.Range(101, 150)})
+		sc.Actors = []Actor{
+			{Kind: "scanner", Name: ipA, Src: ipA, Ops: []Op{{K: "probe", Exp: pa}}},
+			{Kind: "scanner", Name: ipB, Src: ipB, Ops: []Op{{K: "sleep", Ms: 5100}, {K: "flood", Exp: fl}}},
+		}
+		sc.Params["slow_ms"] = r.Range(1000, 4000)
+		sc.Faults = []string{"slow-channel"}
+		class = []string{"flood-during-report"}
+		ns = 2
+	}
 	nj, _ := json.Marshal(nc)
 	var nm map[string]interface{}
 	json.Unmarshal(nj, &nm)
 	sc.Params["net"] = nm
 	sc.Config = rawBaseConfig
 	sc.Schedule = r.Schedule(400)
+	if len(sc.Faults) > 0 {
+		sc.Schedule = nil // strictly: A's probe first, then B
+	}
 	sort.Strings(class)
 	sc.Class = fmt.Sprintf("sources=%d %s", ns, strings.Join(class, ","))
 	sc.DrainMs = 600000
@@ -108,14 +127,35 @@ func runC20(t *testing.T, sc *Scenario) Result {
 			w.Obs.BootErr = err.Error()
 			return
 		}
+		if ms := sc.ParamInt("slow_ms", 0); ms > 0 {
+			hub.mu.Lock()
+			hub.slowMs["cap"] = int64(ms)
+			hub.mu.Unlock()
+		}
 		w.Custom = func(w *World, ai int, op Op) {
-			if op.K != "probe" {
-				return
-			}
 			var p c20Probe
 			json.Unmarshal(op.Exp, &p)
 			a := &w.Sc.Actors[ai]
 			ip := net.ParseIP(a.Src).To4()
+			if op.K == "flood" {
+				// p.Burst SYNs to consecutive ports, all delivered before the listener runs again
+				for k := 0; k < p.Burst; k++ {
+					sportCtr++
+					port := p.Port + k
+					pkt := ipv4Packet(ip, sensorRaw, 6, uint16(sportCtr), tcpSegment(ip, sensorRaw, uint16(20000+sportCtr%30000), uint16(port), uint32(sportCtr)*7919, 0, tcpSYN, 1024, nil, nil))
+					sys.Inject(ethFrame(sensorMAC, peerMAC(ip), 0x0800, pkt))
+					bk := burstKey{a.Src, 0}
+					if probed[bk] == nil {
+						probed[bk] = map[string]bool{}
+					}
+					probed[bk][fmt.Sprintf("tcp/%d", port)] = true
+				}
+				lastProbeMs[a.Src] = w.nowMs()
+				return
+			}
+			if op.K != "probe" {
+				return
+			}
 			sportCtr++
 			sport := uint16(20000 + sportCtr%30000)
 			var pkt []byte
